@@ -1,6 +1,7 @@
 """C17 — USLP primary headers and transfer frames (CCSDS 732.1-B-2)"""
 import copy
 import random
+import zlib
 from typing import Any, Dict, Iterator, List, Optional, Tuple
 
 import core
@@ -148,11 +149,21 @@ def op_hdr_pack(a):
     return {"raw": hx(raw), "len": int(h.len())}
 
 
+def _sampled(raw: bytes) -> bool:
+    """the exhaustive header sweeps decode ~250 000 headers: the receive-buffer probe (core.decode_detached) looks at one
+    in eight of them, chosen by the octets themselves (a case stays self-contained)"""
+    return zlib.crc32(raw) & 7 == 0
+
+
 def op_hdr_unpack(a):
     raw = unhx(a["raw"])
     h = PrimaryHeader.unpack(raw, a["version"])
     # headers decoded by earlier calls must still show what they showed then
     f = _ISO_SWEEP.check("PrimaryHeader", h, _phdr_fields)
+    if _sampled(raw):
+        # decoded out of a receive buffer that is reused afterwards
+        core.check_detached(lambda b: PrimaryHeader.unpack(b, a["version"]), raw, _hdr_view, "PrimaryHeader.unpack",
+                            expect=_hdr_view(h), memview=core.accepts_memoryview(PrimaryHeader.unpack))
     if a.get("check") and core.pack_stable(h, "PrimaryHeader.pack() of a decoded header") != raw[: h.len()]:
         raise SelfCheckFailure("pack(unpack(b)) != b[:len]")
     return f
@@ -174,6 +185,10 @@ def op_thdr_unpack(a):
     raw = unhx(a["raw"])
     h = TruncatedPrimaryHeader.unpack(raw, a["version"])
     f = _ISO_SWEEP.check("TruncatedPrimaryHeader", h, _thdr_fields)
+    if _sampled(raw):
+        core.check_detached(lambda b: TruncatedPrimaryHeader.unpack(b, a["version"]), raw, _hdr_view,
+                            "TruncatedPrimaryHeader.unpack", expect=_hdr_view(h),
+                            memview=core.accepts_memoryview(TruncatedPrimaryHeader.unpack))
     if a.get("check") and core.pack_stable(h, "TruncatedPrimaryHeader.pack() of a decoded header") != raw[:4]:
         raise SelfCheckFailure("pack(unpack(b)) != b[:4]")
     return f
@@ -198,9 +213,17 @@ def op_tfdf_pack(a):
 
 
 def op_tfdf_unpack(a):
-    t = TransferFrameDataField.unpack(raw_tfdf=unhx(a["raw"]), truncated=bool(a["truncated"]),
-                                      exact_len=a["exact_len"], frame_type=_ft(a["frame_type"]))
-    return core.ISOLATION.check("TransferFrameDataField", t, _tfdf_fields)
+    raw = unhx(a["raw"])
+
+    def decode(b):
+        return TransferFrameDataField.unpack(raw_tfdf=b, truncated=bool(a["truncated"]), exact_len=a["exact_len"],
+                                             frame_type=_ft(a["frame_type"]))
+    t = decode(raw)
+    f = core.ISOLATION.check("TransferFrameDataField", t, _tfdf_fields)
+    # decoded out of a receive buffer that is reused afterwards: the data zone is still the one that was decoded
+    core.check_detached(decode, raw, _tfdf_fields, "TransferFrameDataField.unpack", expect=f,
+                        memview=core.accepts_memoryview(TransferFrameDataField.unpack, "raw_tfdf"))
+    return f
 
 
 def op_tfdf_query(a):
@@ -276,11 +299,37 @@ def op_frame_unpack(a):
                                  packer=lambda: f.pack(truncated=f.header.truncated(), frame_type=ft))
         if again != raw[: f.len()] or len(again) != f.len():
             raise SelfCheckFailure("pack(unpack(b)) != b[:len]")
+    # the link receiver reads every frame into ONE frame buffer (a bytearray) and keeps the decoded frames: a frame
+    # decoded earlier still has the header, insert zone, data zone, OCF and FECF it had when the buffer is overwritten
+    # by the next frame (a fresh managed-parameter object: the probe leaves nothing behind for later cases)
+    view = _frame_view(ft) if a.get("check") else _frame_fields
+    core.check_detached(lambda b: TransferFrame.unpack(raw_frame=b, frame_type=ft, frame_properties=_props_new(a["props"])),
+                        raw, view, "TransferFrame.unpack", expect=view(f),
+                        memview=core.accepts_memoryview(TransferFrame.unpack, "raw_frame"))
     return fields
 
 
 # the exhaustive header sweeps decode ~250 000 headers: they look back one object only (run time)
 _ISO_SWEEP = core.Isolation(keep=1)
+
+
+def _hdr_view(h):
+    """every observable of a decoded header: its fields and the octets it packs to"""
+    f = dict(_header_fields(h))
+    try:
+        f["raw"] = hx(h.pack())
+    except ValueError:
+        f["raw"] = None
+    return f
+
+
+def _frame_view(ft):
+    """every observable of a decoded frame that re-packs: its fields and the octets it packs to"""
+    def view(f):
+        v = _frame_fields(f)
+        v["raw"] = hx(f.pack(truncated=f.header.truncated(), frame_type=ft))
+        return v
+    return view
 
 
 def _cls(fn):
